@@ -37,6 +37,42 @@ func specOfVal(v Val) descSpec {
 	return s
 }
 
+// mkDetached: the descriptor alone, never attached to a signal (CreateSegmentationDescriptor + setters only)
+func mkDetached(sp descSpec) scte35.SegmentationDescriptor {
+	d := scte35.CreateSegmentationDescriptor()
+	d.SetTypeID(scte35.SegDescType(sp.ty))
+	d.SetEventID(sp.event)
+	d.SetSegmentNumber(sp.segnum)
+	d.SetSegmentsExpected(sp.segexp)
+	d.SetHasSubSegments(sp.hassub)
+	d.SetSubSegmentNumber(sp.subnum)
+	d.SetSubSegmentsExpected(sp.subexp)
+	d.SetIsDeliveryNotRestricted(true)
+	return d
+}
+
+// vssText: the ADI UPID text of a VSS descriptor; codes from 900000 are unusual texts (Exec/SegExec.v vss_code says
+// which signal id StreamSwitchSignalId derives from each)
+func vssText(k uint64) string {
+	switch k {
+	case 900000:
+		return "BLACKOUT"
+	case 900001:
+		return "SIGNAL:BLACKOUT"
+	case 900002:
+		return "BLACKOUT:"
+	case 900003:
+		return "xBLACKOUT:7"
+	case 900004:
+		return "BLACKOUT:BLACKOUT"
+	case 900005:
+		return "BLACKOU"
+	case 900006:
+		return ""
+	}
+	return fmt.Sprintf("BLACKOUT:%d", k)
+}
+
 // mkDesc builds signal + descriptor through the public API only.
 func mkDesc(sp descSpec) scte35.SegmentationDescriptor {
 	sig := scte35.CreateSCTE35()
@@ -69,7 +105,7 @@ func mkDesc(sp descSpec) scte35.SegmentationDescriptor {
 		d.SetUPIDType(scte35.SegUPIDMID)
 		u0 := scte35.CreateUPID()
 		u0.SetUPIDType(scte35.SegUPIDADI)
-		u0.SetUPID([]byte(fmt.Sprintf("BLACKOUT:%d", sp.vss)))
+		u0.SetUPID([]byte(vssText(sp.vss)))
 		u1 := scte35.CreateUPID()
 		u1.SetUPIDType(scte35.SegUPADSINFO)
 		u1.SetUPID([]byte("comcast:linear:licenserotation"))
@@ -214,6 +250,27 @@ func init() {
 			return VBad()
 		}
 		d, o := mkDescN(specOfVal(a[0]), a[2].U()), mkDescN(specOfVal(a[1]), a[3].U())
+		return VL(VBool(d.CanClose(o)), VBool(d.IsIn()), VBool(d.IsOut()), VBool(o.IsIn()), VBool(o.IsOut()))
+	})
+	// seg.closedet d o k: CanClose on descriptors that are not attached to a signal (k = 1: d detached, 2: o detached,
+	// 3: both).  The rule that compares signal times dereferences the missing signal and panics - reply [2], which the
+	// oracle sets aside (a descriptor in use belongs to a signal); every other rule must answer as for attached ones.
+	register("seg.closedet", func(a []Val) Val {
+		if len(a) != 3 {
+			return VBad()
+		}
+		k := a[2].U()
+		var d, o scte35.SegmentationDescriptor
+		if k&1 != 0 {
+			d = mkDetached(specOfVal(a[0]))
+		} else {
+			d = mkDesc(specOfVal(a[0]))
+		}
+		if k&2 != 0 {
+			o = mkDetached(specOfVal(a[1]))
+		} else {
+			o = mkDesc(specOfVal(a[1]))
+		}
 		return VL(VBool(d.CanClose(o)), VBool(d.IsIn()), VBool(d.IsOut()), VBool(o.IsIn()), VBool(o.IsOut()))
 	})
 	// seg.eqn [n0 n1 ..] d0 d1 ..: the Equal matrix of descriptors built with noise
